@@ -252,7 +252,7 @@ func c19Judge(drv *DriverPool, withSrc, withoutSrc string, rules []inlineRule, r
 }
 
 func runC19(res *Result, tier string, seed int64, replay string) {
-	res.Rule = "(0) style text → table: the texts of one to three inline blocks, generated from the pieces a CSS rule parser looks at (grouped / repeated / compound selectors, empty and malformed declarations, missing braces, comments, Unicode white space, invalid UTF-8), compiled up to the component tree; RenderOpts.InlineClassStyles compared class by class and declaration by declaration with the Lean Model InlineCss.collect (driver `inlcss`), whose table C19_table_is_spec characterises; (1) EXHAUSTIVE per component: every body component that accepts css-class, in a legal context, with css-class=\"ka kb\", compiled with an inline block (.ka two declarations, .kb one) and without it; (2) seeded grammar documents with random inline rule sets, class names shared between components (css-class, mj-class css-class) and author HTML in mj-text / mj-table / mj-raw / mj-button carrying class attributes with quotes, existing style attributes, void and self-closing tags, '>' inside quoted values. Both outputs are tokenised by the Lean lexer with attribute parsing (driver `tags`); the two streams must be identical once style attributes are erased (so the inlined rules must be omitted from the head), every original declaration must survive, and every element whose class list contains a targeted class must carry that rule's declarations in rule order. Non-trivial = document where at least one element matches a rule; distinct by source"
+	res.Rule = "(0) style text → table: the texts of one to three inline blocks, generated from the pieces a CSS rule parser looks at (grouped / repeated / compound selectors, empty and malformed declarations, missing braces, comments, Unicode white space, invalid UTF-8), compiled up to the component tree; RenderOpts.InlineClassStyles compared class by class and declaration by declaration with the Lean Model InlineCss.collect (driver `inlcss`), whose table C19_table_is_spec characterises; (1) EXHAUSTIVE per component: every body component that accepts css-class, in a legal context, with css-class=\"ka kb\", compiled with an inline block (.ka two declarations, .kb one) and without it; (2) seeded grammar documents with random inline rule sets, class names shared between components (css-class, mj-class css-class) and author HTML in mj-text / mj-table / mj-raw / mj-button carrying class attributes with quotes, existing style attributes, void and self-closing tags, '>' inside quoted values; each generated document also with its head written behind its body. Both outputs are tokenised by the Lean lexer with attribute parsing (driver `tags`); the two streams must be identical once style attributes are erased (so the inlined rules must be omitted from the head), every original declaration must survive, and every element whose class list contains a targeted class must carry that rule's declarations in rule order. Non-trivial = document where at least one element matches a rule; distinct by source"
 	drv, err := startDriverPool(8)
 	if err != nil {
 		res.Disagree(Violation{Sig: "driver-missing", What: err.Error()})
@@ -458,6 +458,29 @@ func runC19(res *Result, tier string, seed int64, replay string) {
 		if cl != "" {
 			sig := "generated|" + cl
 			res.Violate(Violation{Sig: sig, Kind: "input", What: what, Input: map[string]string{"source": with, "without": without, "signature": sig}})
+		}
+		// the same document with the head written behind the body: "when the head contains an inline block" does not say where
+		// in the document the head stands
+		if cl == "" {
+			headLast := func(src string) string {
+				a, b := strings.Index(src, "<mj-head"), strings.Index(src, "</mj-head>")
+				e := strings.Index(src, "</mj-body>")
+				if a < 0 || b < a || e < b {
+					return ""
+				}
+				b += len("</mj-head>")
+				e += len("</mj-body>")
+				return src[:a] + src[b:e] + src[a:b] + src[e:]
+			}
+			if wl, ol := headLast(with), headLast(without); wl != "" && ol != "" {
+				cl, what := c19Judge(drv, wl, ol, rs, res, "gen-head-last")
+				res.Case(wl, true)
+				res.Count("head-behind-body")
+				if cl != "" {
+					sig := "generated-head-last|" + cl
+					res.Violate(Violation{Sig: sig, Kind: "input", What: "head written behind the body: " + what, Input: map[string]string{"source": wl, "without": ol, "signature": sig}})
+				}
+			}
 		}
 	}
 	_ = mjml.Render
